@@ -864,7 +864,9 @@ class _Position(NamedTuple):
 
 
 def _get_position(node: ast.AST) -> _Position:
-    lineno = getattr(node, "lineno", 1)
+    # A synthetic node placed "one line above" something on line 1 has line number 0,
+    # which would index the line table from the end.
+    lineno = max(getattr(node, "lineno", 1), 1)
     col_offset = getattr(node, "col_offset", 0)
     end_lineno = getattr(node, "end_lineno", lineno)
     end_col_offset = getattr(node, "end_col_offset", col_offset)
